@@ -784,8 +784,9 @@ class BaseDiscretizer(BaseEstimator, TransformerMixin):
 
             # replacing group leader if requested
             elif mode == "replace":
-                # grouping kept_value with discarded_value
-                order.group(kept_value, discarded_value)
+                # grouping kept_value with discarded_value (unless it already is one of its members)
+                if not order.get_group(kept_value) == discarded_value:
+                    order.group(kept_value, discarded_value)
 
                 # checking that kept_value is in discarded_value
                 assert order.get_group(kept_value) == discarded_value, (
